@@ -40,8 +40,8 @@ EXTENDS Integers, Sequences, FiniteSets, TLC, CSV
 
 CONSTANTS NT,        \* number of timer objects; Timers == 1..NT
           Keys,      \* set of key values (naturals) for target and deadline
-          TgtLeDl,   \* TRUE: only pairs with target <= deadline (as libdispatch builds them);
-                     \* "eq": deadline = target (both heaps ordered alike; cheap many-timer configs)
+          Pairs,     \* which <<target, deadline>> pairs: "free" all; "le" target <= deadline (as libdispatch
+                     \* builds them); "eq" deadline = target (both heaps ordered alike: cheap many-timer configs)
           C,         \* DISPATCH_HEAP_INIT_SEGMENT_CAPACITY (8 in the source); a power of two >= 4
                      \* (with 2 one _grow would add a single word: TLC refutes HeapOrder at once)
           MaxSeg,    \* segments available to the memory model (enough for NT timers)
@@ -52,8 +52,8 @@ CONSTANTS NT,        \* number of timer objects; Timers == 1..NT
 Timers == 1..NT
 NULL == 0
 INVALID == -1                         \* DTH_INVALID_ID
-KeyPairs == IF TgtLeDl = "eq" THEN {<<k, k>> : k \in Keys}
-            ELSE IF TgtLeDl = TRUE THEN {kp \in Keys \X Keys : kp[1] <= kp[2]} ELSE Keys \X Keys
+KeyPairs == IF Pairs = "eq" THEN {<<k, k>> : k \in Keys}
+            ELSE IF Pairs = "le" THEN {kp \in Keys \X Keys : kp[1] <= kp[2]} ELSE Keys \X Keys
 
 ASSUME /\ NT \in Nat /\ NT >= 1 /\ C \in {4, 8, 16} /\ MaxSeg \in 1..8
 
